@@ -247,6 +247,82 @@ Proof.
   destruct (bl_append_range (cap st) (abs st) xs) as [l fits]. exact H.
 Qed.
 
+(* ---------- range insert from the vector itself ----------
+   When the target position is not strictly inside the source range the element-by-element copy reads every source
+   slot before it is overwritten, so the loop equals the loop over the values the range had at the start. *)
+Lemma skipn_upd_ge {A} (l : list A) i f n : n <= i -> skipn n (upd l i f) = upd (skipn n l) (i - n) f.
+Proof.
+  revert i n; induction l as [|x l IH]; intros i n H.
+  - rewrite !skipn_nil. reflexivity.
+  - destruct n as [|n]; [now rewrite Nat.sub_0_r|]. destruct i as [|i]; [lia|]. simpl. apply IH. lia.
+Qed.
+
+Lemma insert_self_loop_as_loop : forall n src key st,
+  src + n <= length (slots st) -> key <= src \/ src + n <= key ->
+  insert_self_loop n src key None st = insert_loop (firstn n (skipn src (slots st))) key None st.
+Proof.
+  induction n as [|m IH]; intros src key st Hl Hov; [reflexivity|].
+  destruct (get_some st src) as [x Gx]; [lia|].
+  cbn [insert_self_loop]. rewrite Gx. unfold get in Gx.
+  rewrite (nth_error_skipn_cons _ _ _ Gx). rewrite firstn_cons. cbn [insert_loop].
+  destruct (cap st <=? key); [reflexivity|].
+  destruct (assign_val st None key x) as [[st1 p1] o1] eqn:E.
+  destruct (assign_val_None_plan _ _ _ _ _ _ E) as (-> & _).
+  destruct o1; try reflexivity.
+  apply assign_val_cases in E. destruct E as [(? & _)|[(? & _)|(_ & Hk & _ & ->)]]; try discriminate.
+  cbn [size]. set (st2 := if key =? size st then _ else _).
+  assert (S2 : slots st2 = upd (slots st) key (fun _ => x)) by (subst st2; destruct (key =? size st); reflexivity).
+  rewrite IH.
+  - rewrite S2. f_equal. destruct Hov as [Hov|Hov].
+    + now rewrite skipn_upd_gt by lia.
+    + rewrite skipn_upd_ge by lia. now rewrite firstn_upd_le by lia.
+  - rewrite S2, upd_length. lia.
+  - lia.
+Qed.
+
+Lemma slice_abs st a b : b <= size st -> firstn (b - a) (skipn a (slots st)) = firstn (b - a) (skipn a (abs st)).
+Proof.
+  intros H. unfold abs. rewrite skipn_firstn_comm, firstn_firstn. f_equal. lia.
+Qed.
+
+Lemma insert_self_range_refines (Q : slot -> Prop) key a b st st' o :
+  GInv Q st -> self_range_valid st a b = true -> key <= a \/ b <= key ->
+  insert_self_range None key a b st = (st', o) ->
+  match bl_overwrite (cap st) (abs st) key (firstn (b - a) (skipn a (abs st))) with
+  | Some (l, fits) => o = (if fits then Done else Raised) /\ abs st' = l /\ cap st' = cap st
+  | None => o = Raised /\ st' = st
+  end.
+Proof.
+  intros HI Hv Hov H. unfold self_range_valid in Hv. apply andb_prop in Hv. destruct Hv as (V1 & V2).
+  apply Nat.leb_le in V1. apply Nat.leb_le in V2.
+  apply (insert_range_refines Q); auto. rewrite <- H. unfold insert_range, insert_self_range.
+  destruct (size st <? key); [reflexivity|].
+  rewrite insert_self_loop_as_loop.
+  - now rewrite slice_abs.
+  - destruct HI as (H1 & H2 & _). lia.
+  - lia.
+Qed.
+
+Lemma push_back_self_range_refines (Q : slot -> Prop) a b st st' o :
+  GInv Q st -> self_range_valid st a b = true -> push_back_self_range None a b st = (st', o) ->
+  let r := bl_append_range (cap st) (abs st) (firstn (b - a) (skipn a (abs st))) in
+  o = (if snd r then Done else Raised) /\ abs st' = fst r /\ cap st' = cap st.
+Proof.
+  intros HI Hv H. unfold push_back_self_range in H.
+  assert (Hb : b <= size st).
+  { unfold self_range_valid in Hv. apply andb_prop in Hv. destruct Hv as (_ & V2). now apply Nat.leb_le in V2. }
+  apply (insert_self_range_refines Q) in H; auto.
+  rewrite <- (abs_length Q st HI) in H. rewrite bl_overwrite_end in H.
+  destruct (bl_append_range (cap st) (abs st) (firstn (b - a) (skipn a (abs st)))) as [l fits]. exact H.
+Qed.
+
+(* ... and it is NOT the case when the position lies strictly inside the source range: [1,2,3], insert(begin()+1,
+   begin(), begin()+2) copies the 1 twice *)
+Lemma insert_self_range_overlap_witness :
+  insert_self_range None 1 0 2 (mkfv 3 3 [Filled 1; Filled 2; Filled 3]) = (mkfv 3 3 [Filled 1; Filled 1; Filled 1], Done) /\
+  bl_overwrite 3 [Filled 1; Filled 2; Filled 3] 1 [Filled 1; Filled 2] = Some ([Filled 1; Filled 1; Filled 2], true).
+Proof. split; reflexivity. Qed.
+
 (* ---------- constructors ---------- *)
 Lemma make_abs c : abs (make c) = [] /\ cap (make c) = c.
 Proof. split; reflexivity. Qed.
